@@ -402,7 +402,8 @@ impl Iterator for FillIter {
                 .fold(0, |i, e| if e.x <= current.x { i + 1 } else { i });
 
             self.cursor.move_by(0, 1);
-            if self.cursor.x == self.bounds.right() {
+            // nb. The cursor can start at `bounds.right()` if `bounds` is empty.
+            if self.cursor.x >= self.bounds.right() {
                 self.cursor.move_to(current.y + 1, self.bounds.left());
                 self.update_active_edges();
             }
